@@ -39,7 +39,8 @@ MIN_COUNTERS = {"quick": {"walks": 4000, "space_inspections": 20000, "getattr_ch
 SHARD_TIMEOUT = {"quick": 900, "thorough": 5400}
 
 CLASH_KINDS = ["new_cells_clash", "new_space_clash", "model_new_space_clash", "model_ref_clash_space",
-               "rename_cells_clash", "rename_space_clash", "ref_clash_cells", "ref_clash_sub_member",
+               "rename_cells_clash", "rename_cells_clash_sub_cells", "rename_cells_clash_sub_member",
+               "rename_space_clash", "ref_clash_cells", "ref_clash_sub_member",
                "cells_clash_sub_member", "add_bases_kind_conflict", "setattr_nonscalar_cells",
                "new_cells_badname", "rename_cells_badname", "rename_space_badname"]
 ABSENT = ["qq1", "nothing_here", "zz9", "Xx"]
